@@ -41,7 +41,8 @@ CONSTANTS Conns,        \* connection attempts (ids)
           KidOf,        \* Conns -> peer id of the remote node
           IpOfAddr,     \* address -> IP (ParseIPAddr)
           MaxIn, MaxPerIp, MaxOut,
-          CheckThenAct, SplitCheck
+          CheckThenAct, SplitCheck,
+          TrackSnap     \* TRUE: maintain the ghost variable snap (finer state identity for the transition cover)
 
 VARIABLES pc,       \* Conns -> program counter of the attempt
           inb,      \* inoutbounds[INBOUND_INDEX]   (set of addresses)
@@ -49,10 +50,14 @@ VARIABLES pc,       \* Conns -> program counter of the attempt
           lsn,      \* inboundListenAddress
           cing,     \* connecting
           peers,    \* peer id -> connection currently recorded in the peers map, or "none"
+          snap,     \* ghost: what the attempt saw when it passed its checks (size of its bound, inbound count of its IP).
+                    \* It does not influence any action; it makes the histories that differ in what was observed at
+                    \* check time different states, so that the transition cover replays each of them (an
+                    \* implementation that caches a check-time observation until Save is exercised on all of them).
           act       \* history: last action (excluded from the VIEW)
 
-vars == <<pc, inb, outb, lsn, cing, peers, act>>
-view == <<pc, inb, outb, lsn, cing, peers>>
+vars == <<pc, inb, outb, lsn, cing, peers, snap, act>>
+view == <<pc, inb, outb, lsn, cing, peers, snap>>
 
 Kids == {KidOf[c] : c \in Conns}
 IPs == {IpOf[c] : c \in Conns}
@@ -63,6 +68,7 @@ PCs == {"idle", "c1", "c2", "c3", "checked", "hs", "saved", "closed", "rejected"
 Init == /\ pc = [c \in Conns |-> "idle"]
         /\ inb = {} /\ outb = {} /\ lsn = {} /\ cing = {}
         /\ peers = [k \in Kids |-> "none"]
+        /\ snap = [c \in Conns |-> [n |-> 0, ip |-> 0]]
         /\ act = [name |-> "Init", c |-> "", res |-> ""]
 
 Did(n, c, r) == act' = [name |-> n, c |-> c, res |-> r]
@@ -79,32 +85,36 @@ KidOk(c) == LET o == peers[KidOf[c]] IN o = "none" \/ IpOf[o] = IpOf[c]         
 Unconnecting(c) == IF IsIn(c) THEN cing ELSE cing \ {AddrOf[c]}
 
 Reject(n, c, r) == /\ Go(c, "rejected") /\ Did(n, c, r)
-                   /\ UNCHANGED <<inb, outb, lsn, peers>>
+                   /\ UNCHANGED <<inb, outb, lsn, peers, snap>>
+SizeSeen(c) == IF IsIn(c) THEN Cardinality(inb) ELSE Cardinality(outb)
+IpSeen(c) == IF IsIn(c) THEN FromIp(IpOf[c]) ELSE 0
 
 (*************************** fine-grained steps ****************************)
 CheckAddr(c) == /\ SplitCheck /\ pc[c] = "idle"
-                /\ IF AddrFree(c) THEN Go(c, "c1") /\ Did("CheckAddr", c, "ok") /\ UNCHANGED <<inb, outb, lsn, peers>>
+                /\ IF AddrFree(c) THEN Go(c, "c1") /\ Did("CheckAddr", c, "ok") /\ UNCHANGED <<inb, outb, lsn, peers, snap>>
                                   ELSE Reject("CheckAddr", c, "rej-addr")
                 /\ UNCHANGED cing
 
 CheckFull(c) == /\ SplitCheck /\ pc[c] = "c1"
                 /\ IF NotFull(c) THEN Go(c, "c2") /\ Did("CheckFull", c, "ok") /\ UNCHANGED <<inb, outb, lsn, peers>>
+                                      /\ snap' = IF TrackSnap THEN [snap EXCEPT ![c].n = SizeSeen(c)] ELSE snap
                                  ELSE Reject("CheckFull", c, "rej-full")
                 /\ UNCHANGED cing
 
 CheckIp(c) == /\ SplitCheck /\ pc[c] = "c2" /\ IsIn(c)
               /\ IF IpOk(c) THEN Go(c, "checked") /\ Did("CheckIp", c, "checked") /\ UNCHANGED <<inb, outb, lsn, peers>>
+                                 /\ snap' = IF TrackSnap THEN [snap EXCEPT ![c].ip = IpSeen(c)] ELSE snap
                             ELSE Reject("CheckIp", c, "rej-ip")
               /\ UNCHANGED cing
 
 TryConnecting(c) == /\ SplitCheck /\ pc[c] = "c2" /\ ~IsIn(c)
                     /\ IF AddrOf[c] \notin cing
                        THEN /\ Go(c, "checked") /\ Did("TryConnecting", c, "checked")
-                            /\ cing' = cing \cup {AddrOf[c]} /\ UNCHANGED <<inb, outb, lsn, peers>>
+                            /\ cing' = cing \cup {AddrOf[c]} /\ UNCHANGED <<inb, outb, lsn, peers, snap>>
                        ELSE Reject("TryConnecting", c, "rej-connecting") /\ UNCHANGED cing
 
 AfterCheck(c) == /\ SplitCheck /\ pc[c] = "checked"
-                 /\ IF KidOk(c) THEN Go(c, "hs") /\ Did("AfterCheck", c, "ok") /\ UNCHANGED <<inb, outb, lsn, peers, cing>>
+                 /\ IF KidOk(c) THEN Go(c, "hs") /\ Did("AfterCheck", c, "ok") /\ UNCHANGED <<inb, outb, lsn, peers, cing, snap>>
                                 ELSE Reject("AfterCheck", c, "rej-kid") /\ cing' = Unconnecting(c)
 
 (****************************** insertion *********************************)
@@ -119,6 +129,7 @@ Insert(n, c) ==
                        ELSE outb' = outb \cup {AddrOf[c]} /\ UNCHANGED <<inb, lsn>>
          /\ peers' = [peers EXCEPT ![KidOf[c]] = c]
          /\ cing' = Unconnecting(c)
+         /\ UNCHANGED snap
 
 SaveFine(c) == SplitCheck /\ pc[c] = "hs" /\ Insert("Save", c)
 
@@ -131,6 +142,7 @@ Check(c) == /\ ~SplitCheck /\ pc[c] = "idle"
                ELSE IF ~IsIn(c) /\ AddrOf[c] \in cing THEN Reject("Check", c, "rej-connecting") /\ UNCHANGED cing
                ELSE /\ Go(c, "checked") /\ Did("Check", c, "checked")
                     /\ cing' = IF IsIn(c) THEN cing ELSE cing \cup {AddrOf[c]}
+                    /\ snap' = IF TrackSnap THEN [snap EXCEPT ![c] = [n |-> SizeSeen(c), ip |-> IpSeen(c)]] ELSE snap
                     /\ UNCHANGED <<inb, outb, lsn, peers>>
 
 \* handshake completes: afterHandshakeCheck + savePeer (+ removeConnecting)
@@ -149,7 +161,7 @@ Close(c) == /\ pc[c] = "saved"
             /\ IF IsIn(c) THEN inb' = inb \ {AddrOf[c]} /\ lsn' = lsn \ {ListenOf[c]} /\ UNCHANGED outb
                           ELSE outb' = outb \ {AddrOf[c]} /\ UNCHANGED <<inb, lsn>>
             /\ peers' = IF peers[KidOf[c]] = c THEN [peers EXCEPT ![KidOf[c]] = "none"] ELSE peers
-            /\ UNCHANGED cing
+            /\ UNCHANGED <<cing, snap>>
 
 Next == \E c \in Conns : \/ CheckAddr(c) \/ CheckFull(c) \/ CheckIp(c) \/ TryConnecting(c) \/ AfterCheck(c) \/ SaveFine(c)
                          \/ Check(c) \/ Save(c) \/ HandshakeFail(c) \/ Close(c)
@@ -173,5 +185,5 @@ Book == /\ inb = {AddrOf[c] : c \in Est("in")}
         /\ outb = {AddrOf[c] : c \in Est("out")}
         /\ cing \subseteq {AddrOf[c] : c \in {d \in Conns : ~IsIn(d) /\ pc[d] \in {"checked", "hs"}}}
 
-State == [pc |-> pc, inb |-> inb, outb |-> outb, lsn |-> lsn, cing |-> cing, peers |-> peers]
+State == [pc |-> pc, inb |-> inb, outb |-> outb, lsn |-> lsn, cing |-> cing, peers |-> peers, snap |-> snap]
 =============================================================================
